@@ -1,5 +1,6 @@
 import MgpuModel.C08
 import MgpuProofs.C08PartInv
+import MgpuProofs.C08Multi
 import MgpuProofs.Props.C08
 /-! # C08 — the STATEFUL partition algorithm hands out every work-group exactly once
 
@@ -130,6 +131,49 @@ theorem pnext_grid_exactly_once (g : Geo) (hv : g.Valid) (p : Option (Coord → 
     rw [← hl]
     exact (pnext_done_all l ncu hn k fails hdone).1
 
+/-- **multi_gpu_exactly_once (driver split ∘ partition dispatch).** A unified multi-GPU launch of
+    any valid grid over GPUs with CU counts `cus` (positive sum): GPU `i` runs its own partition
+    algorithm over `ncu i ≥ 1` compute units on the work-groups its filter closure accepts, against
+    its own arbitrary finite refusal stream. After `|l_i| + |stream_i|` calls on each GPU the
+    hand-outs of all GPUs together are a permutation of the work-groups of the grid: every
+    work-group is dispatched exactly once, on exactly one GPU. (A GPU with an empty range gets no
+    request in the driver; here its list is empty and it contributes nothing.) -/
+theorem multi_gpu_exactly_once (g : Geo) (hv : g.Valid) (cus : List Nat) (hs : 0 < cus.sum)
+    (ncu : Nat → Nat) (hncu : ∀ i, 0 < ncu i) (fails : Nat → List Bool) :
+    let d := wgDist (wgPerCU g.total cus.sum) cus 0
+    let l := fun i => (enumFrom g (gpuFilter g d i) (g.total + 1) ⟨0, 0, 0⟩).1
+    let out := fun i => (pRun ((l i).length + (fails i).length)
+      (pStart (l i) (countWG g (some (gpuFilter g d i))) (ncu i)) (fails i)).2.2.map (·.2)
+    ((List.range cus.length).flatMap out).Perm (allWGs g) := by
+  intro d l out
+  have hldef : ∀ i, l i = (enumFrom g (gpuFilter g d i) (g.total + 1) ⟨0, 0, 0⟩).1 := fun _ => rfl
+  have houtdef : ∀ i, out i = (pRun ((l i).length + (fails i).length)
+      (pStart (l i) (countWG g (some (gpuFilter g d i))) (ncu i)) (fails i)).2.2.map (·.2) := fun _ => rfl
+  have hddef : d = wgDist (wgPerCU g.total cus.sum) cus 0 := rfl
+  clear_value out l d
+  have hout : ∀ i ∈ List.range cus.length, (out i).Perm ((allWGs g).filter fun w => gpuFilter g d i w.id) := by
+    intro i _
+    have hcount : countWG g (some (gpuFilter g d i)) = (l i).length := by
+      rw [hldef]; exact numWG_eq_produced g hv (some (gpuFilter g d i))
+    have hl : l i = (allWGs g).filter fun w => gpuFilter g d i w.id := by
+      have he := wgs_enumerate g hv (gpuFilter g d i) 0 (g.total + 1)
+      have hsk : skip g (gpuFilter g d i) 0 ⟨0, 0, 0⟩ = ⟨0, 0, 0⟩ := rfl
+      rw [hsk] at he
+      have hlen : ((allWGs g).filter fun w => gpuFilter g d i w.id).length ≤ g.total := by
+        have := List.length_filter_le (fun w : WG => gpuFilter g d i w.id) (allWGs g)
+        simpa [allWGs] using this
+      rw [hldef, he, List.drop_zero, List.take_of_length_le (by omega)]
+    have := (pnext_terminates (l i) (ncu i) (hncu i) (fails i)).2
+    rw [houtdef, hcount, ← hl]
+    exact this
+  refine (flatMap_perm_congr _ _ _ hout).trans ?_
+  subst hddef
+  apply filter_partition_perm cus.length
+    (fun i w => gpuFilter g (wgDist (wgPerCU g.total cus.sum) cus 0) i w.id) (allWGs g)
+  intro w hw
+  obtain ⟨i, hi, a, b⟩ := filters_partition g cus hs w hw
+  exact ⟨i, hi, a, b⟩
+
 /-! ## the hypotheses are met by concrete runs, including one that steals -/
 
 /-- grid of 4 work-groups on 2 compute units (`per = 2`), outcomes ok · refuse,ok · refuse,ok · ok:
@@ -144,6 +188,10 @@ example : pHeld (pRun 3 (pStart (allWGs ⟨4, 1, 1, 1, 1, 1⟩) 4 2) [false, tru
 /-- a call in which every offer is refused dispatches nothing and consumes the refusals -/
 example : (pNext (pStart (allWGs ⟨4, 1, 1, 1, 1, 1⟩) 4 2) [true, true, false]).2 = ([false], none) := by
   decide +kernel
+/-- two GPUs (1 and 2 CUs-worth of range) over 7 work-groups: GPU 0 owns [0,3), GPU 1 owns [3,9) -/
+example : wgDist (wgPerCU (Geo.total ⟨7, 1, 1, 1, 1, 1⟩) 3) [1, 2] 0 = [0, 3, 9] := by decide +kernel
+example : (enumFrom ⟨7, 1, 1, 1, 1, 1⟩ (gpuFilter ⟨7, 1, 1, 1, 1, 1⟩ [0, 3, 9] 1) 8 ⟨0, 0, 0⟩).1.map (·.id)
+    = [(3, 0, 0), (4, 0, 0), (5, 0, 0), (6, 0, 0)] := by decide +kernel
 example : Geo.Valid ⟨4, 1, 1, 1, 1, 1⟩ := ⟨by decide, by decide, by decide, by decide, by decide, by decide⟩
 
 end C08
